@@ -69,6 +69,7 @@ structure PollPrims (σ : Type) where
   sockFd : σ → Int                    -- socket.s
   sockAppend : σ → σ                  -- sockets.append(&socket, SocketInfo())
   sockRemove : σ → σ                  -- sockets.remove(it)
+  selIsEmpty : σ → Bool               -- selectedSockets.isEmpty()
   selFind : σ → Bool                  -- selectedSockets.find(&socket) != selectedSockets.end()
   selEvents : σ → Flags               -- *it (uint&)
   setSelEvents : σ → Flags → σ
